@@ -9,6 +9,11 @@ PRODUCERS = [
     ("input", "", [["b", 2]]),
     ("choice", "{ b(X,Y) } :- db(X,Y).", [["db", 2]]),
     ("derived", "b(X,Y) :- db(X,Y), not blk(X).", [["db", 2], ["blk", 1]]),
+    ("headagg_count", "1 #count { Y : b(X,Y) : db(X,Y) } 2 :- db(X,_).", [["db", 2]]),
+    ("headagg_sum", "#sum { Y,X : b(X,Y) : db(X,Y) } 3 :- db(X,_).", [["db", 2]]),
+    ("oldstyle", "1 { b(X,Y) : db(X,Y) } 2 :- db(X,_).", [["db", 2]]),
+    ("disjunction", "b(X,Y) ; nb(X,Y) :- db(X,Y).", [["db", 2]]),
+    ("headagg_eq", "2 = #count { Y : b(X,Y) : db(_,Y) } :- db(X,_).", [["db", 2]]),
     ("recursive", "b(X,Y) :- db(X,Y). b(X,Z) :- b(X,Y), db(Y,Z).", [["db", 2]]),
 ]
 
@@ -85,7 +90,7 @@ def jobs(tier: str):
         for pname, ptext, pin in PRODUCERS:
             for mname, mtext in MIDS:
                 for cname, ctext in CONSUMERS:
-                    if quick and pname in ("derived", "recursive") and cname not in (
+                    if quick and pname not in ("input", "choice") and cname not in (
                             "head_only", "anon_all", "constraint", "weak", "show_term", "bodyagg_tuple"):
                         continue
                     if mname in ("copy_proj", "copy_proj2"):
